@@ -1,8 +1,6 @@
 package rules
 
 import (
-	"golang.org/x/tools/go/packages"
-
 	"go/ast"
 	"go/types"
 
@@ -12,6 +10,13 @@ import (
 
 func init() { Registry["C12"] = c12 }
 
+// Robustness pass: see muxsearch.go — puts may be made through a local closure / method value or a
+// renamed helper (resolved by "calls cache.Add"), the lookup through a renamed helper with named
+// results, the hit decision in a helper returning (route, hit); the value cached may sit in a local
+// (classified by the state where its origin is ambiguous); the cache may be created by a helper or
+// stored by a tuple assignment. Mutants re-tried on refactored forms: 404 put unconditionally through
+// the closure → R-C12-2; extracted hit decision without the chain test → R-C12-2; header guard of
+// the success put dropped in the extracted path walk → R-C12-1.
 func c12(c *core.Ctx) string {
 	c.Rule("R-C12-1", "no header dependence: no cache put is reachable in a state in which a branch on the header matcher has been taken since function entry (the key does not contain headers)")
 	c.Rule("R-C12-2", "IP dependence re-validated: every IP-filter test passed on a path to a cache put is re-evaluated on the hit path before the cached value is returned (server-level test before the lookup or chain check on hit; no put after a non-nil rule/path filter of an earlier entry was passed; failure routes only when no rule-level filter was consulted)")
@@ -49,19 +54,15 @@ func c12SearchIPOnly(c *core.Ctx, s *searchInfo, rule string) {
 }
 
 func c12Search(c *core.Ctx, s *searchInfo) {
-	f := s.f
 	if !c.RequireCount("R-C12-1", "cache put call sites in search", len(s.puts), 2) {
 		return
 	}
-	if s.get == nil || s.getVar == nil {
+	if len(s.gets) == 0 || len(s.holders) == 0 {
 		c.Errorf("R-C12: anchor: cache lookup in search not found")
 		return
 	}
+	get := s.gets[0]
 	// hit-path facts
-	var chainKeys []string
-	for _, ca := range s.chainAllow {
-		chainKeys = append(chainKeys, f.CallKey(ca))
-	}
 	hitCoversServer := true
 	hitCoversChain := true
 	hitReturns := 0
@@ -73,72 +74,55 @@ func c12Search(c *core.Ctx, s *searchInfo) {
 		}
 		hitReturns++
 		st := ex.State
-		if s.val(st, s.allow["server"]) != flow.True {
+		if s.allowed(st, "server") != flow.True {
 			hitCoversServer = false
 			badHit = st
 		}
 		// what is returned?
-		var ret ast.Expr
-		if len(ex.Return.Results) == 1 {
-			ret = ast.Unparen(ex.Return.Results[0])
-		}
-		id, _ := ret.(*ast.Ident)
-		switch {
-		case id != nil && f.Info.Uses[id] == s.getVar:
+		switch s.exitKind(ex) {
+		case "cached":
 			// cached route: success routes need the chain check
-			codeKey := "eq:" + f.Render(id) + ".code==0"
-			if st.Is(codeKey, flow.False) {
+			if s.cachedCodeZero(st) == flow.False {
 				break // failure route, nothing more to re-validate here (see puts)
 			}
-			okChain := false
-			for _, k := range chainKeys {
-				if st.Is(k, flow.True) {
-					okChain = true
-				}
-			}
-			// nil chain
-			for _, ca := range s.chainAllow {
-				if sel, ok := ast.Unparen(ca.Fun).(*ast.SelectorExpr); ok && st.Is(f.NilKey(sel.X), flow.True) {
-					okChain = true
-				}
-			}
-			if !okChain {
+			if passed, _ := s.chainPassed(st); !passed {
 				hitCoversChain = false
 				badChain = st
 			}
-		case id != nil && s.routeCodes[f.Info.Uses[id]] == "403":
+		case "403":
 		default:
 			badRet = ex
 		}
 	}
 	c.RequireCount("R-C12-4", "hit-path returns in search", hitReturns, 2)
-	c.Check(badRet == nil, "R-C12-4", s.cons+"|hit returns cached route or 403", pos(c, s.get),
+	c.Check(badRet == nil, "R-C12-4", s.cons+"|hit returns cached route or 403", pos(c, get),
 		sprintf("%d hit-path exits return the cached route or forbidden", hitReturns),
 		"on a cache hit something other than the cached route or the 403 route is returned", func() []string {
 			if badRet != nil {
-				return append([]string{"return at " + pos(c, badRet.Return)}, witness(badRet.State)...)
+				return append([]string{"return at " + pos(c, badRet.Ret())}, witness(badRet.State)...)
 			}
 			return nil
 		}()...)
-	c.Check(hitCoversChain, "R-C12-2", s.cons+"|hit re-validates the cached path's filter chain", pos(c, s.get),
+	c.Check(hitCoversChain, "R-C12-2", s.cons+"|hit re-validates the cached path's filter chain", pos(c, get),
 		"a cached success route is returned only with a nil chain or chain.Allow(ip) = true",
 		"a cached success route is returned without re-validating its IP filter chain", witness(badChain)...)
 
 	for _, put := range s.puts {
-		states := s.res.At[put]
+		states := s.res.At[put.call]
 		if len(states) == 0 {
-			c.Discharge("R-C12-1", s.cons+"|put(unreachable)", pos(c, put), "unreachable put")
+			c.Discharge("R-C12-1", s.cons+"|put(unreachable)", pos(c, put.call), "unreachable put")
 			continue
 		}
 		// group the states by the kind of value they hand to the cache
 		byKind := map[string][]*flow.State{}
 		for _, st := range states {
-			byKind[s.putKindIn(st, put)] = append(byKind[s.putKindIn(st, put)], st)
+			k := s.putKindIn(st, put)
+			byKind[k] = append(byKind[k], st)
 		}
 		for _, kind := range sortedKeys(byKind) {
 			sts := byKind[kind]
 			if kind == "" {
-				c.Undecide("R-C12-1", s.cons+"|put(?)", pos(c, put), "cannot classify the value handed to the cache")
+				c.Undecide("R-C12-1", s.cons+"|put(?)", pos(c, put.call), "cannot classify the value handed to the cache")
 				continue
 			}
 			name := "put(status " + kind + ")"
@@ -153,14 +137,14 @@ func c12Search(c *core.Ctx, s *searchInfo) {
 					break
 				}
 			}
-			c.Check(bad == nil, "R-C12-1", s.cons+"|"+name, pos(c, put),
+			c.Check(bad == nil, "R-C12-1", s.cons+"|"+name, pos(c, put.call),
 				sprintf("%d states reach the put, none after a header-dependent branch", len(sts)),
 				"the route is cached after a header-conditioned entry was consulted: a later request with the same host+method+path but other headers is served the cached outcome although the cache-less router decides differently", witness(bad)...)
 			// R-C12-2
 			bad = nil
 			why := ""
 			for _, st := range sts {
-				ruleDep := st.Is(evIPRule, flow.True) && !nilFilterKnown(s, st, "rule")
+				ruleDep := st.Is(evIPRule, flow.True) && !s.nilFilterKnown(st, "rule")
 				switch {
 				case st.Is(evIPEarly, flow.True):
 					bad, why = st, "the put is reachable after the IP filter of an earlier rule/path was passed; that filter is not part of the cached path's chain, so a client it denies is served from the cache"
@@ -178,19 +162,10 @@ func c12Search(c *core.Ctx, s *searchInfo) {
 				w = append(w, "hit path without server-level test:")
 				w = append(w, witness(badHit)...)
 			}
-			c.Check(bad == nil, "R-C12-2", s.cons+"|"+name, pos(c, put),
+			c.Check(bad == nil, "R-C12-2", s.cons+"|"+name, pos(c, put.call),
 				sprintf("%d states reach the put; every IP test they passed is re-validated on a hit", len(sts)), why, w...)
 		}
 	}
-}
-
-func nilFilterKnown(s *searchInfo, st *flow.State, level string) bool {
-	for _, call := range s.allow[level] {
-		if st.Is(s.f.NilKey(call.Args[0]), flow.True) {
-			return true
-		}
-	}
-	return false
 }
 
 // keyShape extracts the components of the cache key built in fn: a list of
@@ -315,11 +290,24 @@ func keyShapeIn(c *core.Ctx, f *flow.Func) ([][2]string, ast.Node) {
 }
 
 func c12Key(c *core.Ctx) {
-	get := fn(c, hs, "muxInstance", "getRouteFromCache")
-	put := fn(c, hs, "muxInstance", "putRouteToCache")
+	ro := muxRolesOf(c, "R-C12-3")
+	if ro == nil {
+		return
+	}
+	byCall := func(prefer, method string) *flow.Func {
+		g, n := muxFuncByRole(c, hs, prefer, func(g *flow.Func, fd *ast.FuncDecl) bool {
+			return muxOwnCalls(g, func(call *ast.CallExpr) bool { return ro.cacheMethodCall(g.Info, call, method) })
+		})
+		if g == nil {
+			c.Errorf("R-C12-3: anchor: cannot resolve the function that calls cache.%s (%d candidates)", method, n)
+		}
+		return g
+	}
+	get, put := byCall("getRouteFromCache", "Get"), byCall("putRouteToCache", "Add")
 	if get == nil || put == nil {
 		return
 	}
+	getName, putName := muxFuncConstruct(get), muxFuncConstruct(put)
 	gs, gat := keyShape(c, get)
 	ps, pat := keyShape(c, put)
 	if gs == nil || ps == nil {
@@ -336,9 +324,9 @@ func c12Key(c *core.Ctx) {
 	}
 	c.Check(same, "R-C12-3", hs+".cache key|lookup and insert agree", pos(c, pat),
 		sprintf("both build %v", gs), sprintf("lookup builds %v but insert builds %v", gs, ps))
-	for name, sh := range map[string][][2]string{"getRouteFromCache": gs, "putRouteToCache": ps} {
+	for name, sh := range map[string][][2]string{getName: gs, putName: ps} {
 		at := gat
-		if name == "putRouteToCache" {
+		if name == putName {
 			at = pat
 		}
 		vars := 0
@@ -374,7 +362,7 @@ func c12Key(c *core.Ctx) {
 		if vars < 3 {
 			injective, why = false, "the key does not contain host, method and path"
 		}
-		c.Check(injective, "R-C12-3", fname(hs, "muxInstance", name)+"|delimited key", pos(c, at),
+		c.Check(injective, "R-C12-3", name+"|delimited key", pos(c, at),
 			sprintf("key components %v", sh), "cache key is not injective: "+why)
 	}
 }
@@ -395,72 +383,76 @@ func hasSuffix(s, suf string) bool { return len(s) >= len(suf) && s[len(s)-len(s
 func c12Fresh(c *core.Ctx) { muxCacheFresh(c, "R-C12-5") }
 
 // muxCacheFresh is shared with C11 (a cache carried over a reload keeps routes of the old generation).
+// Every store to the instance's cache field must take a freshly created cache: the result of an lru
+// constructor, nil, a local that only ever holds such values, or the result of a same-package helper
+// whose returns are such values.
 func muxCacheFresh(c *core.Ctx, rule string) {
-	cacheF := structField(c, hs, "muxInstance", "cache")
+	ro := muxRolesOf(c, rule)
+	if ro == nil {
+		return
+	}
+	cacheF := ro.cacheF
 	if cacheF == nil {
+		c.Errorf("%s: anchor: the instance has no cache field (a field of a golang-lru cache type)", rule)
 		return
 	}
 	stores := 0
-	eachFunc(c, func(pkg *packages.Package, fd *ast.FuncDecl) {
-		if relPkg(pkg.PkgPath) != hs {
-			return
+	for _, g := range funcsByRole(c, hs, func(g *flow.Func, fd *ast.FuncDecl) bool { return true }) {
+		g := g
+		fd := g.Node.(*ast.FuncDecl)
+		var vf *muxFlow
+		isCtor := func(e ast.Expr) bool {
+			call, ok := ast.Unparen(e).(*ast.CallExpr)
+			if !ok {
+				return false
+			}
+			full := calleeFull(g, call)
+			return full == "github.com/hashicorp/golang-lru.NewARC" || full == "github.com/hashicorp/golang-lru.New2Q" || full == "github.com/hashicorp/golang-lru.New"
 		}
-		f := flow.NewFunc(pkg, fd)
 		check := func(rhs ast.Expr, at ast.Node) {
 			stores++
-			ok := false
-			// rhs must be a variable assigned from lru.NewARC(...) in this function, or the call itself
-			isCtor := func(e ast.Expr) bool {
-				call, ok := ast.Unparen(e).(*ast.CallExpr)
-				if !ok {
-					return false
+			if vf == nil {
+				vf = newMuxFlow(reach(g, 2))
+			}
+			ok := true
+			vals := vf.flat(rhs)
+			for _, v := range vals {
+				switch {
+				case v.root == nil && v.expr != nil && (isCtor(v.expr) || g.Info.Types[v.expr].IsNil()):
+				default:
+					ok = false
 				}
-				full := calleeFull(f, call)
-				return full == "github.com/hashicorp/golang-lru.NewARC" || full == "github.com/hashicorp/golang-lru.New2Q" || full == "github.com/hashicorp/golang-lru.New"
 			}
-			if isCtor(rhs) {
-				ok = true
-			} else if id, isID := ast.Unparen(rhs).(*ast.Ident); isID {
-				obj := f.Info.Uses[id]
-				n, good := 0, 0
-				ast.Inspect(fd.Body, func(x ast.Node) bool {
-					if as, ok := x.(*ast.AssignStmt); ok {
-						for i, l := range as.Lhs {
-							if lid, ok := l.(*ast.Ident); ok && (f.Info.Defs[lid] == obj || f.Info.Uses[lid] == obj) {
-								n++
-								if len(as.Rhs) == 1 && isCtor(as.Rhs[0]) && i == 0 {
-									good++
-								}
-							}
-						}
-					}
-					return true
-				})
-				ok = n > 0 && n == good
-			} else if f.Info.Types[rhs].IsNil() {
-				ok = true
-			}
-			c.Check(ok, rule, declName(pkg, fd)+"|store to muxInstance.cache", pos(c, at),
-				"assigned a cache created in the same function", "muxInstance.cache is assigned a value that is not a freshly created cache (routes cached by another generation would survive the reload)")
+			c.Check(ok && len(vals) > 0, rule, declName(g.Pkg, fd)+"|store to muxInstance.cache", pos(c, at),
+				"assigned a cache created for this instance", "muxInstance.cache is assigned a value that is not a freshly created cache (routes cached by another generation would survive the reload)")
 		}
 		ast.Inspect(fd.Body, func(n ast.Node) bool {
 			switch x := n.(type) {
 			case *ast.AssignStmt:
 				for i, l := range x.Lhs {
-					if sel, ok := ast.Unparen(l).(*ast.SelectorExpr); ok {
-						if sl := f.Info.Selections[sel]; sl != nil && sl.Obj() == cacheF && len(x.Rhs) == len(x.Lhs) {
-							check(x.Rhs[i], x)
-						}
+					sel, ok := ast.Unparen(l).(*ast.SelectorExpr)
+					if !ok {
+						continue
+					}
+					if sl := g.Info.Selections[sel]; sl == nil || sl.Obj() != cacheF {
+						continue
+					}
+					switch {
+					case len(x.Rhs) == len(x.Lhs):
+						check(x.Rhs[i], x)
+					case len(x.Rhs) == 1 && i == 0:
+						check(x.Rhs[0], x) // inst.cache, err = ctor(..)
+					default:
+						stores++
+						c.Violate(rule, declName(g.Pkg, fd)+"|store to muxInstance.cache", pos(c, x), "muxInstance.cache is assigned a value that is not a freshly created cache (routes cached by another generation would survive the reload)")
 					}
 				}
 			case *ast.CompositeLit:
-				if tv, ok := f.Info.Types[x]; ok && tv.Type != nil {
-					if n, ok := tv.Type.(*types.Named); ok && n.Obj().Name() == "muxInstance" {
-						for _, el := range x.Elts {
-							if kv, ok := el.(*ast.KeyValueExpr); ok {
-								if k, ok := kv.Key.(*ast.Ident); ok && k.Name == "cache" {
-									check(kv.Value, kv)
-								}
+				if tv, ok := g.Info.Types[x]; ok && muxSameNamed(muxDerefNamed(tv.Type), ro.instT) {
+					for _, el := range x.Elts {
+						if kv, ok := el.(*ast.KeyValueExpr); ok {
+							if k, ok := kv.Key.(*ast.Ident); ok && k.Name == cacheF.Name() {
+								check(kv.Value, kv)
 							}
 						}
 					}
@@ -468,6 +460,6 @@ func muxCacheFresh(c *core.Ctx, rule string) {
 			}
 			return true
 		})
-	})
+	}
 	c.RequireCount(rule, "stores to muxInstance.cache", stores, 1)
 }
